@@ -465,10 +465,12 @@ def pinned_classes(eng, mk):
     out = []
     pool = eng.pool
 
-    def orders(ids, **kw):
+    def orders(ids, stride=1, tag="orders", **kw):
         files = [pool.by_id[i].file for i in ids]
         first = None
-        for perm in itertools.permutations(files):
+        for k_, perm in enumerate(itertools.permutations(files)):
+            if k_ % stride and perm != tuple(reversed(files)):
+                continue
             c = mk(list(perm), **kw)
             c["_all_letters"] = first is None
             c["_no_letters"] = first is not None
@@ -476,8 +478,22 @@ def pinned_classes(eng, mk):
                 first = list(perm)
             else:
                 c["_order2"] = list(first)
-            c["pinned"] = "orders"
+            c["pinned"] = tag
             out.append(c)
+    # list_sort (list.c: the only sorter of module_list): groups of 4, 5 and 6 modules with pairwise DISTINCT priorities
+    # (and no duplicate names), under EVERY enumeration order (4: all 24, 5: all 120; 6: every 5th of the 720 orders
+    # plus the reversed one).  The initial module_list is the reversed enumeration order (list_prepend); the sorter is
+    # an insertion sort with a trailing "previous element" cursor -- a slip in the cursor handling shows from the
+    # fourth element on and only for some initial orders.  -L shows module_list in list order, the initialisation
+    # order follows it, and modules of different priority competing for a letter show the order in the active set.
+    orders(["m28", "m05", "m04", "m06"], tag="sort")             # 300 m,O | 200 j | 100 j,g | 50 m
+    orders(["m35", "m18", "m22", "m36"], tag="sort")             # INT_MAX 2 | 150 a,C | 100 a | INT_MIN 2,a
+    orders(["m25", "m06", "m15", "m16"], tag="sort")             # 90 | 50 | 0 | -1: nothing shared, the order alone
+    orders(["m28", "m05", "m18", "m04", "m06"], tag="sort")      # 300 | 200 | 150 | 100 | 50
+    orders(["m01", "m25", "m06", "m15", "m16"], tag="sort")      # 100 | 90 | 50 | 0 | -1
+    orders(["m01", "m22", "m03", "m05", "m06"], tag="sort")      # three of equal priority (order by name) between 200 and 50
+    orders(["m28", "m05", "m18", "m04", "m25", "m06"], stride=5, tag="sort")
+    orders(["m35", "m31", "m24", "m11", "m15", "m36"], stride=5, tag="sort", pers=PCP)
     # ties and duplicates
     orders(["m26", "r05", "m23"])                    # misc/tie + rcmd/tie, same priority, same letter
     orders(["m01", "m19", "r10", "m02"])             # equal-priority duplicate; rcmd/alpha beside misc/alpha
@@ -687,7 +703,9 @@ def run(ctx):
     ctx.lean_build([PROPS, "pdshmodel"])
     ctx.audit(PROPS)
     cov = {"evaluations": 0, "distinct_nontrivial": 0, "samples": [],
-           "rule": "~700 pinned cases first (every enumeration order of 17 tie / duplicate / conflict groups of 3-4 modules, "
+           "rule": "~1250 pinned cases first (list_sort: every enumeration order of 3 groups of 4 and 3 groups of 5 modules of "
+                   "pairwise distinct priorities -- one of the 5 with an equal-priority triple --, every 5th order of 2 groups of 6; "
+                   "every enumeration order of 17 tie / duplicate / conflict groups of 3-4 modules, "
                    "-M lists naming missing, repeated, conflicting and non-misc modules via option and environment, the "
                    "permission matrix owner x mode on a module file and on EACH ancestor directory, callers, symbolic links "
                    "to files and to the directory, unopenable / empty / repeated enumeration), then random: "
@@ -703,7 +721,7 @@ def run(ctx):
     ok = repo is not None and pool.build() and preload.check_imports(ctx, os.path.join(repo, "src/pdsh/pdsh"))
     dist = {"runs": 0, "fatal": 0, "root_or_setuid": 0, "insecure_file": 0, "insecure_path": 0, "forced": 0,
             "pcp": 0, "order_pairs": 0, "order_dependent": 0, "opt_uses": 0, "exhaustive_orders": 0, "branches": {},
-            "perm_matrix": 0, "spec_violation_classes": {}}
+            "perm_matrix": 0, "sort_orders": {}, "spec_violation_classes": {}}
     distinct = set()
     if ok:
         eng = Engine(ctx, pool, repo)
@@ -989,8 +1007,18 @@ def check_cases(ctx, eng, cases, cov, dist, distinct, rng):
         recs.append((c, origin, o1, o2, order2, uses))
     text = "".join(eng.case_line(c, use=list(u.keys())) + "\n" for c, _, _, _, _, u in recs)
     text2 = "".join(eng.case_line(c, order=o2l) + "\n" for c, _, _, _, o2l, _ in recs)
-    mlines = ctx.model("mod", text, args=eng.margs)
-    mlines2 = ctx.model("mod", text2, args=eng.margs)
+    # the model is run with list_sort as its POINTER LOOP (`cursor`: Mod/SortCursor.lean, cursors ppPrev / pp / ppPos) --
+    # that form is compared with pdsh below -- and as `listSort`; the two are equal by `loader_runs_pointer_loop`
+    cargs = list(eng.margs) + ([] if "nosameobj" in eng.margs else ["cursor"])
+    mlines = ctx.model("mod", text, args=cargs)
+    mlines2 = ctx.model("mod", text2, args=cargs)
+    if cargs != list(eng.margs):
+        for t_, ml_ in ((text, mlines), (text2, mlines2)):
+            for k_, (x_, y_) in enumerate(zip(ml_, ctx.model("mod", t_, args=eng.margs))):
+                if x_ != y_:
+                    ctx.disagreement("mod model: list_sort as pointer loop vs listSort", "%s vs %s" % (x_, y_),
+                                     {"case": {k: v for k, v in recs[k_][0].items() if not k.startswith("_")}})
+        dist["sort_as_pointer_loop"] = dist.get("sort_as_pointer_loop", 0) + 2 * len(recs)
     stext = "".join(eng.case_line(c, use=list(u.keys()), spec=True) + obs_tokens(o1, u) + "\n" for c, _, o1, _, _, u in recs)
     slines = ctx.model("mod", stext, args=["spec"])
     stext2 = "".join(eng.case_line(c, order=o2l, spec=True) + obs_tokens(o2, {}) + "\n" for c, _, _, o2, o2l, _ in recs)
@@ -1002,6 +1030,9 @@ def check_cases(ctx, eng, cases, cov, dist, distinct, rng):
             distinct.add(key)
         if o1["fatal"]:
             dist["fatal"] += 1
+        if c.get("pinned") == "sort":
+            k_ = "%d modules" % len(c["files"])
+            dist["sort_orders"][k_] = dist["sort_orders"].get(k_, 0) + 1
         if c["uid"] == 0 or c["uid"] != c["euid"]:
             dist["root_or_setuid"] += 1
         if c["misc"]:
